@@ -4,6 +4,7 @@ import (
 	"fmt"
 	"regexp"
 	"runtime"
+	"strconv"
 	"strings"
 
 	"github.com/nlnwa/whatwg-url/canonicalizer"
@@ -484,6 +485,39 @@ func Gen02(t *rapid.T) Case02 {
 				w := gen.Pick(t, "sdsetter", []string{"host", "hostname", "port", "pathname", "username"})
 				idx := map[string]int{"host": spec.SetterHost, "hostname": spec.SetterHostname, "port": spec.SetterPort, "pathname": spec.SetterPathname, "username": spec.SetterUsername}[w]
 				c.Ops = append(c.Ops, Op02{Kind: "set", Reg: reg, Setter: idx, Value: B(gen.SetterValue(t, "sdvalue", idx))})
+			}
+		}
+		return c
+	}
+	if rapid.IntRange(0, 7).Draw(t, "biglist") == 0 {
+		// long parameter lists: implementations may index, cache or re-sort a list differently above
+		// some length. A list of 9..65 parameters, then look-ups of names at its ends, clearing and
+		// replacing the query through the setter, and look-ups again (same names: gone by now).
+		n := rapid.SampledFrom([]int{9, 12, 13, 17, 33, 65}).Draw(t, "blN")
+		distinct := rapid.IntRange(0, 2).Draw(t, "blDistinct") != 0
+		name := func(i int) string {
+			if distinct {
+				return "k" + strconv.Itoa(i)
+			}
+			return "k" + strconv.Itoa(i%3)
+		}
+		var q []string
+		for i := 0; i < n; i++ {
+			q = append(q, name(i)+"=v"+strconv.Itoa(i))
+		}
+		c.Input, c.HasBase = B(gen.Pick(t, "blstart", []string{"http://h/?", "foo://h/p?", "a:b?"})+strings.Join(q, "&")), false
+		pickName := func() B {
+			return B(name(rapid.SampledFrom([]int{n - 1, 0, n / 2, n - 2, 8, 9}).Draw(t, "blName")))
+		}
+		for i, k := 0, rapid.IntRange(2, 9).Draw(t, "blops"); i < k; i++ {
+			reg := rapid.IntRange(0, 1).Draw(t, "blreg")
+			switch rapid.IntRange(0, 9).Draw(t, "blkind") {
+			case 0, 1:
+				c.Ops = append(c.Ops, Op02{Kind: "set", Reg: reg, Setter: spec.SetterSearch, Value: B(gen.Pick(t, "blsearch", []string{"", "", "?", "k0=x", strings.Join(q[:n/2], "&"), strings.Join(q, "&") + "&z=1"}))})
+			case 2:
+				c.Ops = append(c.Ops, Op02{Kind: gen.Pick(t, "blother", []string{"clone", "spclone", "iterate", "setparams"}), Reg: reg, Reg2: 1 - reg})
+			default:
+				c.Ops = append(c.Ops, Op02{Kind: "sp", Reg: reg, SP: SPOp{Op: gen.Pick(t, "blspop", []string{"get", "has", "getall", "get", "has", "delete", "set", "append", "sort", "sortabs", "string"}), Name: pickName(), Value: "w"}})
 			}
 		}
 		return c
